@@ -12,8 +12,11 @@ for id in $ids; do
   prop=$(python3 -c "import json,sys; print(json.load(open('$d/meta.json'))['property'])" 2>/dev/null)
   [ -z "$prop" ] && prop=$(echo $id | cut -c1-3)
   st=$(python3 -c "import json,sys; print(json.load(open('$d/meta.json')).get('status',''))" 2>/dev/null)
-  if ! git -C /repo apply --check "$(pwd)/$d/patch.diff" 2>/dev/null; then echo "$id skipped(patch no longer applies)"; continue; fi
-  git -C /repo apply "$(pwd)/$d/patch.diff"
+  pf=$d/patch.diff
+  # the change re-made on the current tree, where later repairs moved the code
+  [ -f $d/patch_ported.diff ] && pf=$d/patch_ported.diff
+  if ! git -C /repo apply --check "$(pwd)/$pf" 2>/dev/null; then echo "$id skipped(patch no longer applies)"; continue; fi
+  git -C /repo apply "$(pwd)/$pf"
   out=$(timeout 2400 ./check $prop quick 2>&1); rc=$?
   git -C /repo checkout -- . ; git -C /repo clean -fdq -- stdlib interp extract 2>/dev/null
   if [ $rc -eq 1 ] && echo "$out" | grep -q "^VIOLATION property=$prop"; then echo "$id caught ($(echo "$out" | grep -m1 '^VIOLATION' | sed 's/.*replay=//' | xargs basename))"; else echo "$id MISSED (exit=$rc; recorded status: $st) $(echo "$out" | tail -1)"; fi
